@@ -31,7 +31,7 @@ static int gen_c13(cs_t *cs, void *k, const runcfg_t *cfg) {
         o->kind = (uint8_t)kd;
         o->thread = (uint8_t)cs_range(cs, 0, nthreads - 1);
         o->h = o->kind <= OP_THRD_SET_MEM ? (uint8_t)cs_range(cs, 0, cfg->phase == 0 ? 2 : 4) : 0;
-        if ((o->kind == OP_VIOL_STR || o->kind == OP_VIOL_MEM) && cfg->phase) o->h = (uint8_t)cs_range(cs, 0, 3); /* which constraint is violated: every report site must dispatch by the function's own kind */
+        if ((o->kind == OP_VIOL_STR || o->kind == OP_VIOL_MEM) && cfg->phase) o->h = (uint8_t)(cs_range(cs, 0, 3) + 4 * (cs_range(cs, 0, 3) == 0 ? cs_range(cs, 1, 2) : 0)); /* bits 2..3: the handler commits a nested violation (same kind / other kind); bits 0..1: which constraint is violated: every report site must dispatch by the function's own kind */
         if (o->kind == OP_SPAWN) { if (nthreads < c->maxt) nthreads++; else o->kind = OP_VIOL_STR; }
     }
     return 1;
@@ -40,10 +40,10 @@ static int gen_c13(cs_t *cs, void *k, const runcfg_t *cfg) {
 static void c13_describe(const void *k, char *buf, size_t n) {
     const hcase_t *c = k;
     int i, p = snprintf(buf, n, "history[%d]:", c->nops);
-    for (i = 0; i < c->nops && p < (int)n - 24; i++) {
+    for (i = 0; i < c->nops && p < (int)n - 64; i++) {
         const hop_t *o = &c->op[i];
         if (o->kind <= OP_THRD_SET_MEM) p += snprintf(buf + p, n - (size_t)p, " T%d.%s(%s%d)", o->thread, opname[o->kind], o->h ? "H" : "NULL", o->h ? o->h : 0);
-        else p += snprintf(buf + p, n - (size_t)p, " T%d.%s", o->thread, opname[o->kind]);
+        else p += snprintf(buf + p, n - (size_t)p, " T%d.%s%s", o->thread, opname[o->kind], (o->h >> 2) == 1 ? "[handler violates again, same kind]" : (o->h >> 2) == 2 ? "[handler violates again, other kind]" : "");
     }
 }
 
@@ -51,7 +51,20 @@ static void c13_describe(const void *k, char *buf, size_t n) {
 static struct { int handler; int thread; int code; } rec[8];
 static int nrec;
 static __thread int my_tid = -1;
-static void record(int h, errno_t e) { if (nrec < 8) { rec[nrec].handler = h; rec[nrec].thread = my_tid; rec[nrec].code = e; } nrec++; }
+/* a handler may itself call a bounds-checked function that violates a constraint (a logging handler with a small buffer):
+ * that nested violation is a violation detected on this thread like any other */
+static __thread int nest_arm; /* 1: nested string-kind violation, 2: nested memory-kind violation */
+static void record(int h, errno_t e) {
+    if (nrec < 8) { rec[nrec].handler = h; rec[nrec].thread = my_tid; rec[nrec].code = e; }
+    nrec++;
+    if (nest_arm) {
+        int k = nest_arm;
+        char s[2] = "a";
+        nest_arm = 0;
+        if (k == 1) (void)_strcpy_s_chk(NULL, 10, "a", BOS_UNKNOWN);
+        else (void)_memcpy_s_chk(NULL, 10, s, 1, BOS_UNKNOWN, BOS_UNKNOWN);
+    }
+}
 static void H1(const char *m, void *p, errno_t e) { (void)m; (void)p; record(1, e); }
 static void H2(const char *m, void *p, errno_t e) { (void)m; (void)p; record(2, e); }
 static void H3(const char *m, void *p, errno_t e) { (void)m; (void)p; record(3, e); }
@@ -79,6 +92,7 @@ static void do_op(int tid, int op, int h) {
     case OP_THRD_SET_MEM: t->ret = (long)thrd_set_mem_constraint_handler_s(HT[h]); break;
     case OP_VIOL_STR: {
         char d[8] = "x", s2[4] = "abc";
+        nest_arm = h >> 2; h &= 3;
         if (h == 1) t->ret = _strcat_s_chk(d, 0, "a", BOS_UNKNOWN);                            /* dmax 0 */
         else if (h == 2) t->ret = _strncpy_s_chk(d, 8, s2, 6, BOS_UNKNOWN, sizeof s2);         /* slen above the known source size */
         else if (h == 3) { t->ret = _sprintf_s_chk(d, 8, BOS_UNKNOWN, NULL); if (t->ret < 0) t->ret = -t->ret; } /* null format */
@@ -87,6 +101,7 @@ static void do_op(int tid, int op, int h) {
     }
     case OP_VIOL_MEM: {
         char s[2] = "a", d[8] = "x", s4[4] = "abc";
+        nest_arm = (h >> 2) ? 3 - (h >> 2) : 0; h &= 3; /* 1: same kind (memory), 2: the other kind */
         if (h == 1) t->ret = _memset_s_chk(d, 4, 1, 9, BOS_UNKNOWN);                           /* n above dmax */
         else if (h == 2) t->ret = _memcpy_s_chk(d, 8, s4, 6, BOS_UNKNOWN, sizeof s4);         /* slen above the known source size */
         else if (h == 3) t->ret = _memmove_s_chk(d, 0, s, 1, BOS_UNKNOWN, BOS_UNKNOWN);        /* dmax 0 */
@@ -191,6 +206,22 @@ static void exec_c13(const void *k, res_t *r, const runcfg_t *cfg) {
             const char *src = loc[tid][kind] != M_UNSET ? "thread-local" : (glob[kind] != M_UNSET ? "global" : "default");
             touched_mask |= 1u << tid;
             if (regs[kind] >= 2) nviol_after++;
+            if ((o->h >> 2) && nrec >= 1) { /* nested violation committed by the first handler: dispatched like any other */
+                int nk = (o->h >> 2) == 1 ? kind : 1 - kind;
+                int ne = loc[tid][nk] != M_UNSET ? loc[tid][nk] : (glob[nk] != M_UNSET ? glob[nk] : M_DEFAULT);
+                int ne2 = (loc[tid][nk] == M_UNSET && alt[tid][nk] != M_UNSET) ? alt[tid][nk] : ne;
+                if (nrec != 2) {
+                    RES_VIOL(r, "C13:%s:nested-violation-handler-calls-%d:%s", opname[o->kind], nrec - 1, nk == kind ? "same-kind" : "other-kind");
+                    RES_DETAIL(r, "op %d: the handler on T%d violated a %s constraint itself; that nested violation invoked %d handlers", i, tid, nk ? "memory" : "string", nrec - 1);
+                    goto done;
+                }
+                if ((rec[1].handler != ne && rec[1].handler != ne2) || rec[1].thread != tid) {
+                    RES_VIOL(r, "C13:%s:nested-violation-wrong-handler:%s", opname[o->kind], nk == kind ? "same-kind" : "other-kind");
+                    RES_DETAIL(r, "op %d: nested %s violation on T%d ran handler %d on T%d, the model expects %d", i, nk ? "memory" : "string", tid, rec[1].handler, rec[1].thread, ne);
+                    goto done;
+                }
+                nrec = 1;
+            }
             if (nrec != 1) {
                 RES_VIOL(r, "C13:%s:handler-calls-%d:%s-expected", opname[o->kind], nrec, src);
                 RES_DETAIL(r, "op %d: violation on T%d invoked %d handlers", i, tid, nrec);
